@@ -21,6 +21,7 @@ CONSTANTS
   BugRetDoubleCount = FALSE
   BugArgsDoubleRelease = FALSE
   BugExcNotCounted = FALSE
+  BugRetLeavesRest = FALSE
 INVARIANTS TypeOK WalkedOK NoUnderCount Bounded RcSane
 PROPERTIES UnloadRule
 VIEW View
